@@ -1248,6 +1248,10 @@ func (x *Exec) modifiedIn(nodes ...ast.Node) *modSet {
 			lhs(e.X)
 		case *ast.IndexExpr:
 			// write through container
+			if mt, ok := x.info.TypeOf(e.X).Underlying().(*types.Map); ok {
+				x.markMapWrite(m, mt)
+				return
+			}
 			x.markElemWrite(m, e.X)
 		case *ast.SelectorExpr:
 			x.markFieldWrite(m, e)
@@ -1304,6 +1308,15 @@ func isNilNode(n ast.Node) bool {
 		return v == nil
 	}
 	return false
+}
+
+// markMapWrite: m[k] = v / delete(m, k) write the map heap (membership and
+// the value components of that element type).
+func (x *Exec) markMapWrite(m *modSet, mt *types.Map) {
+	m.heapKeys["map:has"] = true
+	for _, c := range x.layout(mt.Elem()) {
+		m.heapKeys["map:val:"+typeKey(mt.Elem())+c.Suffix] = true
+	}
 }
 
 func (x *Exec) markElemWrite(m *modSet, container ast.Expr) {
